@@ -795,9 +795,13 @@ func modelCanon(c Case, ans string) string {
 
 var caseDir string
 
-func runReal(c Case) outcome {
+func resetCaseDir() {
 	os.RemoveAll(caseDir)
 	os.MkdirAll(filepath.Join(caseDir, "ipv6"), 0755)
+}
+
+func runReal(c Case) outcome {
+	resetCaseDir()
 	WriteFiles(caseDir, c.files())
 	old := os.Args
 	os.Args = []string{"drc", "-q", filepath.Join(caseDir, "dev"), filepath.Join(caseDir, "spoc")}
@@ -1694,7 +1698,10 @@ func runC18(ctx *Ctx) *Result {
 	res.Rule = "triples (IPv4 file, IPv6 file, raw file) for ASA, IOS, Linux, PAN-OS, NSX: several ACLs/chains/vsys/policies per file, " +
 		"[APPEND] sections, lists without permit lines, empty and absent files, shared names, raw objects bound 0/1/2 times, unknown commands; " +
 		"written to disk and run through drc.Main (empty device); corpus first, then seeded random, thorough adds all list pairs up to 3+3 lines. " +
-		"non-trivial = the raw file is present and some container receives entries from at least two parts; distinct by the encoded case"
+		"non-trivial = the raw file is present and some container receives entries from at least two parts; distinct by the encoded case. " +
+		"Stream cisco3: generated ASA/IOS configurations (routes, ACLs with object-groups, crypto maps, dynamic maps, transform sets, group-policies, " +
+		"tunnel-groups, usernames, pools, interface subcommands; equal / new / clashing names, unreferenced and twice referenced raw objects) parsed by the real " +
+		"parser and merged by the real MergeSpoc; command tables before and after (hooks) compared with the general Lean model; non-trivial = raw table has >= 3 prefixes"
 	res.Assumptions = []string{
 		"container names are unique within one IPv4/IPv6/raw file (PAN-OS vsys, Linux chains; NSX policies may repeat)",
 		"an empty device: the change script of drc then lists the merged target completely",
@@ -1892,10 +1899,21 @@ func runC18(ctx *Ctx) *Result {
 	}
 
 	if ctx.Replay != "" {
+		var probe struct {
+			G3 *G3Case `json:"g3"`
+		}
+		if err := ReadReplay(ctx.Replay, &probe); err == nil && probe.G3 != nil {
+			runCisco3(ctx, res, drv)
+			return res
+		}
 		var c Case
 		if err := ReadReplay(ctx.Replay, &c); err != nil {
 			fmt.Fprintln(os.Stderr, err)
 			os.Exit(2)
+		}
+		if c.Dev == "" {
+			runCisco3(ctx, res, drv)
+			return res
 		}
 		runCase(c)
 		return res
@@ -1905,12 +1923,13 @@ func runC18(ctx *Ctx) *Result {
 	}
 	g := &gen{rng: ctx.Rng.Fork()}
 	devs := []string{"asa", "ios", "linux", "panos", "nsx"}
-	n := ctx.N(700, 12000)
+	n := ctx.N(700, 8000)
 	for i := 0; i < n; i++ {
 		for _, d := range devs {
 			runCase(g.genCase(d))
 		}
 	}
+	runCisco3(ctx, res, drv)
 	if ctx.Thorough() {
 		for _, d := range []string{"asa", "ios", "linux", "panos"} {
 			exhaustive(d, runCase)
